@@ -309,6 +309,12 @@ Definition C04_ok (c : rcase) : bool :=
        | Some _ => true
        end) &&
       (if r_updates_only ro then forallb (fun o => negb (oc_seed o)) stream else true) &&
+      (* with a read mask every value an event carries (old and new) is already projected *)
+      (match r_mask ro with
+       | Some k => forallb (fun o => ofm_eqb (option_map (fr_filter k) (oc_old o)) (oc_old o) &&
+                                     ofm_eqb (option_map (fr_filter k) (oc_new o)) (oc_new o)) stream
+       | None => true
+       end) &&
       (match r_include ro, e with
        | None, None => (non_seed stream =? ok_writes after codes) &&
                        (r_updates_only ro || old_chain [] stream)
